@@ -40,7 +40,7 @@ ASSUMPTIONS = [
     "free-threaded builds and races inside lxml/expat are out of reach",
 ]
 MIN_DISTINCT = {"quick": 1500, "thorough": 30000}
-TIME = {"quick": 50, "thorough": 700}
+TIME = {"quick": 50, "thorough": 1300}
 REQUIRED_FEATURES = ("mode:controlled-enumeration", "mode:pct-random", "mode:stress")
 
 OPS = {
@@ -281,7 +281,7 @@ def run_shard(ctx):
         if ctx.time_left() < -180:
             ctx.inconc("time budget exhausted before the pair enumeration finished")
             break
-        cap = {"xsi": ctx.pick(300, 1500), "nsmap": ctx.pick(100, 600)}.get(g, ctx.pick(200, 800))
+        cap = {"xsi": ctx.pick(300, 1000), "nsmap": ctx.pick(100, 500)}.get(g, ctx.pick(200, 600))
         controlled_pair(ctx, a, b, g, 3, exp, max_runs=cap)
     n_pct = ctx.per_shard(ctx.pick(250, 6000))
     for _ in range(n_pct):
